@@ -314,7 +314,7 @@ def component_purity_sweep(ctx):
     """every built-in reward / termination component on directed triples (door
     in front, wall bump, pick, drop, ...): the registry purity hooks decide"""
     from . import c12
-    for k in range(ctx.pick(40, 400)):
+    for k in range(ctx.pick(40, 1600)):
         rng = gen.rng_for('C03purity', ctx.seed, ctx.shard, k)
         comp = workloads.Composition(rng, force_all_actions=True)
         for t in (Door, Key, Wall, Exit):
@@ -364,7 +364,7 @@ def run(ctx):
                                        reward_fs.getting_closer_shortest_path]):
         install_registry_purity(ctx, patch)
         # random compositions: member states incl. nested boxes, held items, all door statuses x all actions
-        for c in range(ctx.pick(200, 1500)):
+        for c in range(ctx.pick(200, 8000)):
             if not ctx.mine(c):
                 continue
             if ctx.out_of_time(0.55):
@@ -405,7 +405,7 @@ def run(ctx):
             env.set_seed(ctx.seed)
             state = env.functional_reset()
             prng = gen.rng_for('C03ship', name, ctx.seed)
-            for t in range(ctx.pick(40, 150)):
+            for t in range(ctx.pick(40, 400)):
                 action = workloads.policy_interactive(prng, env, state)
                 payload = {'config': name, 'state': enc.state_to_json(state), 'action': action.name}
                 twin = step_experiments(ctx, env, dyndrive.copy_state(state), action, name, payload, True, prng)
